@@ -7,29 +7,33 @@ EXTENDS MapDict, Json, TLC
 
 CONSTANTS Keys, KSz, VSizes, Limit,
           DigMode,     \* "spread": distinct first-level digests; "clustered": tiny alphabets per level
+          Persist,     \* sprinkle commit / drop cache / crash events
           GrowUntil, ShrinkFrom, EmitDepth
 
-VARIABLES dict, nextId, hist
-wvars == <<dict, nextId, hist>>
+VARIABLES dict, nextId, hist, cdict, hasc
+wvars == <<dict, nextId, hist, cdict, hasc>>
 
 Spread(k)    == <<(k * 37) % 101, (k * 11) % 7, k % 3, k % 2>>
 Clustered(k) == <<k % 3, (k \div 3) % 2, (k \div 6) % 2, (k \div 12) % 2>>
 Dig(k) == IF DigMode = "spread" THEN Spread(k) ELSE Clustered(k)
 KeysSeq == [k \in 1..Cardinality(Keys) |-> Dig(k)]
 
-Init == dict = <<>> /\ nextId = 1 /\ hist = << <<"dig">> \o KeysSeq >>
+Init == dict = <<>> /\ nextId = 1 /\ hist = << <<"dig">> \o KeysSeq >> /\ cdict = <<>> /\ hasc = FALSE
 
 SetK(k, vsz) ==
   LET vid == nextId * 1000 + vsz IN
   /\ dict' = MSet(dict, k, Dig(k), vid, Limit).s
   /\ nextId' = nextId + 1
-  /\ hist' = Append(hist, <<"mset", k, KSz, vid, vsz>>)
+  /\ hist' = Append(hist, <<"mset", k, KSz, vid, vsz>>) /\ UNCHANGED <<cdict, hasc>>
 RemoveK(k) ==
-  /\ dict' = MRem(dict, k).s /\ UNCHANGED nextId
+  /\ dict' = MRem(dict, k).s /\ UNCHANGED <<nextId, cdict, hasc>>
   /\ hist' = Append(hist, <<"mrem", k, KSz>>)
-GetK(k) == UNCHANGED <<dict, nextId>> /\ hist' = Append(hist, <<"mget", k, KSz>>)
-HasK(k) == UNCHANGED <<dict, nextId>> /\ hist' = Append(hist, <<"mhas", k, KSz>>)
+GetK(k) == UNCHANGED <<dict, nextId, cdict, hasc>> /\ hist' = Append(hist, <<"mget", k, KSz>>)
+HasK(k) == UNCHANGED <<dict, nextId, cdict, hasc>> /\ hist' = Append(hist, <<"mhas", k, KSz>>)
 
+Commit(md, w) == Persist /\ cdict' = dict /\ hasc' = TRUE /\ UNCHANGED <<dict, nextId>> /\ hist' = Append(hist, <<"commit", md, w, 0>>)
+DropCache == Persist /\ UNCHANGED <<dict, nextId, cdict, hasc>> /\ hist' = Append(hist, <<"dropcache">>)
+Crash == Persist /\ hasc /\ dict' = cdict /\ UNCHANGED <<nextId, cdict, hasc>> /\ hist' = Append(hist, <<"crash">>)
 Present == {k \in Keys : HasKey(dict, k)}
 Growing == Len(hist) <= GrowUntil
 Shrinking == Len(hist) > ShrinkFrom
@@ -39,6 +43,7 @@ Next == \/ ~Shrinking /\ \E k \in Keys, v \in VSizes : SetK(k, v)
         \/ Shrinking /\ Present = {} /\ \E k \in Keys, v \in VSizes : SetK(k, v)   \* never deadlock before EmitDepth
         \/ ~Growing /\ \E k \in (IF Shrinking THEN Present ELSE Keys) : RemoveK(k)
         \/ ~Growing /\ ~Shrinking /\ \E k \in Keys : GetK(k) \/ HasK(k)
-Spec == Init /\ [][Next]_wvars
+NextP == Next \/ (\E md \in {"det", "nondet"}, w \in {1, 4} : Commit(md, w)) \/ DropCache \/ Crash
+Spec == Init /\ [][NextP]_wvars
 EmitWalk == (EmitDepth > 0 /\ Len(hist) = EmitDepth + 1) => PrintT(ToJson(hist))
 =============================================================================
